@@ -36,6 +36,7 @@ type Instr struct {
 	Dir  int    `json:"dir,omitempty"`
 	Trim bool   `json:"trim,omitempty"`
 	Upd  bool   `json:"upd,omitempty"`
+	Aim  bool   `json:"aim,omitempty"` // aim the write at another transaction's read range / rows
 }
 
 func (in Instr) String() string {
@@ -52,6 +53,8 @@ type Program struct {
 	// Async: no checker barrier after each step (conflict aborts then reach
 	// the transaction while later messages of it are already queued)
 	Async   bool   `json:"async,omitempty"`
+	// Domain maps value choices to valDomain entries (nil = identity)
+	Domain  []int  `json:"domain,omitempty"`
 	Trig    []bool `json:"trig,omitempty"`
 	ThrowOn int    `json:"throwon,omitempty"`
 }
@@ -67,6 +70,8 @@ type GenOpts struct {
 	Triggers  bool
 	Pauses    bool // generate pause/release instructions (C16)
 	GlobalPct int  // share of global operations (default 8)
+	SkewPct   int  // share of programs that start with a read/write-skew template
+	Domain    []int // value choice -> valDomain index (nil = identity)
 }
 
 var defaultWeights = map[string]int{
@@ -88,6 +93,7 @@ func genProgram(t *rapid.T, o GenOpts) Program {
 		return defaultWeights[op]
 	}
 	p.Async = gen.Chance(t, "async", 25)
+	p.Domain = o.Domain
 	p.ThrowOn = -1
 	if o.Triggers {
 		for range p.Schemas {
@@ -207,6 +213,56 @@ func genProgram(t *rapid.T, o GenOpts) Program {
 		}
 		return sc
 	}
+	if o.SkewPct > 0 && gen.Chance(t, "skew", o.SkewPct) {
+		// read/write skew template: R reads, W writes into what R read (aimed)
+		// and commits, R writes something else and commits — in one of several
+		// interleavings. A correct system must make one of them fail whenever
+		// the serial order would change what R read.
+		R, W := 0, 1
+		rd := func() Instr { return genOp(R, gen.Pick(t, "skewread", []string{"scan", "scan", "lookup"})) }
+		wr := func() Instr {
+			in := genOp(W, gen.Pick(t, "skewwrite", []string{"output", "update", "update", "delete"}))
+			in.Aim = true
+			return in
+		}
+		rw := func() Instr { return genOp(R, gen.Pick(t, "skewrwrite", []string{"output", "output", "update"})) }
+		var seq []Instr
+		shapes := 4
+		if o.World.Fkeys {
+			shapes = 6
+		}
+		switch gen.Uniform(t, "skewshape", shapes) {
+		case 4, 5:
+			// a source row is inserted and committed by W after R began; R then
+			// deletes / re-keys the target row it references (cascade or block
+			// must take the new row into account, or R must fail)
+			w1 := genOp(W, "output")
+			r1 := genOp(R, gen.Pick(t, "skewtgt", []string{"delete", "update"}))
+			r1.Aim = true
+			r1.T = gen.Uniform(t, "skewtt", nt)
+			seq = []Instr{{Op: "begin", S: R}, {Op: "begin", S: W}, w1, {Op: "complete", S: W}, r1, {Op: "complete", S: R}}
+			if nt > 1 {
+				seq[2].T = 1 + gen.Uniform(t, "skewst", nt-1)
+			}
+		case 0:
+			seq = []Instr{{Op: "begin", S: R}, rd(), {Op: "begin", S: W}, wr(), {Op: "complete", S: W}, rw(), {Op: "complete", S: R}}
+		case 1:
+			seq = []Instr{{Op: "begin", S: W}, {Op: "begin", S: R}, rd(), wr(), {Op: "complete", S: W}, rw(), {Op: "complete", S: R}}
+		case 2:
+			seq = []Instr{{Op: "begin", S: R}, {Op: "begin", S: W}, rd(), rd(), wr(), wr(), {Op: "complete", S: W}, rw(), {Op: "complete", S: R}}
+		default:
+			seq = []Instr{{Op: "begin", S: R}, rd(), {Op: "begin", S: W}, wr(), rw(), {Op: "complete", S: W}, {Op: "complete", S: R}}
+		}
+		for i := range seq {
+			if seq[i].Op == "scan" && gen.Chance(t, "skewfull", 60) {
+				seq[i].N = 0 // read the whole range
+			}
+			if seq[i].Op == "scan" && gen.Chance(t, "skewsec", 70) {
+				seq[i].I = 1 + gen.Uniform(t, "skewidx", 4) // a secondary index
+			}
+		}
+		p.Instrs = append(p.Instrs, seq...)
+	}
 	scripts := make([][]Instr, o.Slots)
 	total := 3 + gen.Uniform(t, "ninstr", o.MaxInstrs-2)
 	for len(p.Instrs) < total+nsetup {
@@ -248,6 +304,9 @@ type readRec struct {
 	Dir      int
 	Got      []Row
 	Eof      bool
+	// the rows the bounds / key were built from (nil = unbounded); used to aim
+	// other transactions' writes into this read's range
+	OrgRow, EndRow Row
 }
 
 func (r *readRec) String() string {
@@ -382,7 +441,7 @@ func (r *run) installTriggers() func() {
 			c := trigCall{Table: td.Name, Old: conv(a2), New: conv(a3), Tran: a1.String()}
 			r.triglog = append(r.triglog, c)
 			if r.prog.ThrowOn >= 0 {
-				bad := valDomain[r.prog.ThrowOn]
+				bad := valOf(r.prog.ThrowOn)
 				if (c.Old != nil && c.Old[0] == bad) || (c.New != nil && c.New[0] == bad) {
 					panic(trigBoom)
 				}
@@ -432,7 +491,7 @@ func (r *run) checkTriggers(ts *tranState, what string, before int, chs []change
 		}
 		want = append(want, trigCall{Table: ch.Table, Old: ch.Old, New: ch.New, Tran: ts.ut.String()}.String())
 		if r.prog.ThrowOn >= 0 {
-			bad := valDomain[r.prog.ThrowOn]
+			bad := valOf(r.prog.ThrowOn)
 			if (ch.Old != nil && ch.Old[0] == bad) || (ch.New != nil && ch.New[0] == bad) {
 				throwExpected = true
 			}
@@ -833,10 +892,21 @@ func (r *run) checkRead(ts *tranState, rd *readRec) {
 	ts.events = append(ts.events, event{read: rd})
 }
 
+// curDomain is the value-choice mapping of the running program (cases run one
+// at a time in a process).
+var curDomain []int
+
+func valOf(choice int) string {
+	if len(curDomain) > 0 {
+		return valDomain[curDomain[choice%len(curDomain)]%len(valDomain)]
+	}
+	return valDomain[choice%len(valDomain)]
+}
+
 func rowFromK(k []int, ncols int) Row {
 	row := make(Row, ncols)
 	for i := range row {
-		row[i] = valDomain[k[i%len(k)]%len(valDomain)]
+		row[i] = valOf(k[i%len(k)])
 	}
 	return row
 }
@@ -913,6 +983,9 @@ func (r *run) exec(in Instr) {
 			r.opFailed(ts, in, err)
 			return
 		}
+		if !(in.Upd && len(rows) > 0) {
+			rd.OrgRow = rowFromK(in.K, len(td.Cols))
+		}
 		r.logf("  #%d %v", ts.id, rd)
 		r.checkRead(ts, rd)
 		r.afterOp(ts)
@@ -944,6 +1017,9 @@ func (r *run) exec(in Instr) {
 				}
 			}
 		}
+		if in.Aim || in.K[0]%3 == 1 {
+			r.aim(ts, td, row, in.K[1]+in.K[2])
+		}
 		r.doWrite(ts, in, &logOp{Kind: "output", Table: td.Name, New: row}, 0)
 	case "update", "delete":
 		ts := r.tranOf(in)
@@ -967,6 +1043,42 @@ func (r *run) exec(in Instr) {
 				rows = refd
 			}
 		}
+		if in.Aim {
+			// prefer a target row that became referenced by a source row
+			// committed after this transaction started
+			var newly []Row
+			for _, row := range ts.view.rows(td.Name) {
+				if hasSources(r.w, r.committed, td, row) && !hasSources(ts.w, ts.view, td, row) {
+					newly = append(newly, row)
+				}
+			}
+			if len(newly) > 0 {
+				rows = newly
+				r.label("target_change_aimed_at_newly_referenced_row")
+			}
+		}
+		if in.Aim && in.Op == "delete" && len(rows) > 0 && !hasSources(r.w, r.committed, td, rows[0]) {
+			// delete a row that another open transaction has read
+			var seen []Row
+			for _, o := range r.slots {
+				if o == nil || o == ts || !o.isUpdate() || o.dead {
+					continue
+				}
+				for _, e := range o.events {
+					if e.read != nil && e.read.Table == td.Name {
+						for _, g := range e.read.Got {
+							if cur, ok := ts.view[td.Name][pkOf(td, g)]; ok && cur.eq(g) {
+								seen = append(seen, g)
+							}
+						}
+					}
+				}
+			}
+			if len(seen) > 0 {
+				rows = seen
+				r.label("deletes_aimed_at_rows_read_by_other_transaction")
+			}
+		}
 		old := rows[in.K[0]%len(rows)]
 		// a row must be read before it can be changed: look it up by its first key
 		rd, rec, err := r.doLookupKey(ts, td, 0, td.Idx[0].key(old))
@@ -985,6 +1097,24 @@ func (r *run) exec(in Instr) {
 			for c := range nw {
 				if in.N&(1<<c) != 0 {
 					nw[c] = vals[c]
+				}
+			}
+			if in.Aim || in.K[1]%3 == 1 {
+				// move the row into a range another transaction has read,
+				// keeping its first key (only secondary index columns change)
+				aimed := nw.clone()
+				if r.aim(ts, td, aimed, in.K[2]+in.K[3]) {
+					for _, c := range td.Idx[0].Cols {
+						aimed[c] = old[c]
+					}
+					nw = aimed
+					defer func() {
+						if ts.dead && strings.Contains(ts.why, "conflict") {
+							r.label("aimed_update_aborted_by_conflict")
+						} else if !ts.dead {
+							r.label("aimed_update_went_through")
+						}
+					}()
 				}
 			}
 			op.New = nw
@@ -1076,10 +1206,10 @@ func litOf(raw string) string {
 // (the third way rows change, besides the transaction API and cascades).
 func (r *run) doAction(ts *tranState, in Instr) {
 	td := ts.w.Tables[in.T%len(ts.w.Tables)]
-	v := valDomain[in.K[0]%len(valDomain)]
+	v := valOf(in.K[0])
 	var stmt string
 	col := td.Cols[1+in.N%(len(td.Cols)-1)]
-	nv := valDomain[in.K[1]%len(valDomain)]
+	nv := valOf(in.K[1])
 	if in.Upd {
 		stmt = fmt.Sprintf("delete %s where a is %s", td.Name, litOf(v))
 	} else {
@@ -1238,6 +1368,12 @@ func (r *run) doScan(ts *tranState, in Instr) {
 		end += ixkey.Sep + ixkey.Max // prefix range end, as queries build them
 	}
 	rd := &readRec{Kind: "scan", Table: td.Name, Idx: i, Org: org, End: end, Dir: in.Dir}
+	if in.K[0] != 0 {
+		rd.OrgRow = rowFromK(in.K[0:4], len(td.Cols))
+	}
+	if in.K[4] != 0 {
+		rd.EndRow = rowFromK(in.K[4:8], len(td.Cols))
+	}
 	iter, it, getRec := r.iterFor(ts, td.Name, i)
 	iter.Range(index.Range{Org: org, End: end})
 	steps := in.N
@@ -1304,7 +1440,7 @@ func (r *run) doScan(ts *tranState, in Instr) {
 			if !in.Upd {
 				nw := got.clone()
 				c := (in.K[1] + n) % len(nw)
-				nw[c] = valDomain[(in.K[2]+n)%5]
+				nw[c] = valOf((in.K[2] + n) % 5)
 				op = &logOp{Kind: "update", Table: td.Name, Old: got, New: nw}
 			}
 			if !r.applyWrite(ts, in, op, off) {
@@ -1651,6 +1787,8 @@ func RunProgram(p Program, cfg Config) (viol *Violation, st Stats) {
 		os.WriteFile(jp, b, 0o644)
 		defer os.Remove(jp)
 	}
+	curDomain = p.Domain
+	defer func() { curDomain = nil }()
 	oldAge := db19.MaxAge
 	db19.MaxAge = p.MaxAge
 	db19.VerifAbortT1(true)
@@ -2009,4 +2147,42 @@ func (r *run) judgeStates(before, after MDB) {
 		seenAfter = true
 		r.label("states_judged")
 	}
+}
+
+// aim overwrites the index columns of row with values taken from a read
+// range of ANOTHER open update transaction on the same table (its lookup key
+// or a scan bound), so that writes land inside ranges other transactions
+// have read: the phantom / write-skew situations the conflict checker exists
+// for. sel picks the transaction and read. Returns true if aimed.
+func (r *run) aim(ts *tranState, td *TableDef, row Row, sel int) bool {
+	type cand struct {
+		rd  *readRec
+		src Row
+	}
+	var cs []cand
+	for _, o := range r.slots {
+		if o == nil || o == ts || !o.isUpdate() || o.dead {
+			continue
+		}
+		for _, e := range o.events {
+			if e.read == nil || e.read.Table != td.Name || e.read.Idx >= len(td.Idx) {
+				continue
+			}
+			if e.read.OrgRow != nil {
+				cs = append(cs, cand{e.read, e.read.OrgRow})
+			}
+			if e.read.EndRow != nil && e.read.Kind == "scan" {
+				cs = append(cs, cand{e.read, e.read.EndRow})
+			}
+		}
+	}
+	if len(cs) == 0 {
+		return false
+	}
+	c := cs[sel%len(cs)]
+	for _, col := range td.Idx[c.rd.Idx].Cols {
+		row[col] = c.src[col]
+	}
+	r.label("writes_aimed_at_other_transactions_read_range")
+	return true
 }
